@@ -1,3 +1,4 @@
 import Props.C15
 import Props.C12
 import Props.C05
+import Props.C04
